@@ -62,6 +62,7 @@ fn pretty<T>(f: impl FnOnce() -> T) -> T {
 struct Cx<'tcx> {
     tcx: TyCtxt<'tcx>,
     krate: String,
+    owner: std::cell::Cell<Option<LocalDefId>>,
 }
 
 impl<'tcx> Cx<'tcx> {
@@ -219,6 +220,16 @@ impl<'tcx> Cx<'tcx> {
                     esc(&self.name(uv.def), out);
                     if uv.promoted.is_some() {
                         out.push_str(",\"promoted\":true");
+                    } else if t.is_integral() || t.is_bool() || t.is_char() {
+                        if let Some(owner) = self.owner.get() {
+                            let env = ty::TypingEnv::post_analysis(self.tcx, owner.to_def_id());
+                            let r = std::panic::catch_unwind(std::panic::AssertUnwindSafe(|| {
+                                c.const_.try_eval_scalar_int(self.tcx, env)
+                            }));
+                            if let Ok(Some(si)) = r {
+                                let _ = write!(out, ",\"v\":{}", js(&format!("{}", si.to_bits_unchecked())));
+                            }
+                        }
                     }
                 }
                 if let mir::Const::Val(mir::ConstValue::Scalar(rustc_middle::mir::interpret::Scalar::Ptr(ptr, _)), _) = c.const_ {
@@ -427,6 +438,7 @@ impl<'tcx> Cx<'tcx> {
     }
 
     fn body(&self, owner: LocalDefId, body: &Body<'tcx>, out: &mut String) {
+        self.owner.set(Some(owner));
         let _ = write!(out, "\"argc\":{},\"locals\":[", body.arg_count);
         // debug names
         let mut names: Vec<Option<String>> = vec![None; body.local_decls.len()];
@@ -958,7 +970,7 @@ impl Callbacks for Cb {
             return Compilation::Continue;
         }
         // only lib / bin targets of workspace members reach here (workspace wrapper)
-        let cx = Cx { tcx, krate: krate.clone() };
+        let cx = Cx { tcx, krate: krate.clone(), owner: std::cell::Cell::new(None) };
         let text = cx.run();
         let ctype = tcx
             .crate_types()
